@@ -40,6 +40,8 @@ POINT_POOL = {
     'pL': ('Langmuir', {'K': 2.0, 'n_m': 3.5}), 'pT': ('Toth', {'n_m': 4.5, 'K': 1.0, 't': 0.8}), 'pL2': ('Langmuir', {'K': 0.5, 'n_m': 5.0}),
     # the same kind of data held in a table with supplementary columns that are partly empty (the points themselves are complete)
     'pTx': ('Toth', {'n_m': 3.0, 'K': 1.8, 't': 0.6}),
+    # data that do not start near the origin
+    'pLs': ('Langmuir', {'K': 2.5, 'n_m': 3.0}),
 }
 PGRID = [0.05, 0.5, 2.0]
 
@@ -49,6 +51,8 @@ _ISO = {}
 def point_data(key, scale):
     name, q = POINT_POOL[key]
     p = numpy.geomspace(1e-3, 400.0, 70)
+    if key == 'pLs':
+        p = numpy.geomspace(0.5, 400.0, 50)        # measured from 0.5 bar only: fictitious pressures can fall BELOW the first point
     n = numpy.round(ml.ref_loading(name, q, p) * scale, 10)
     return p, n
 
@@ -97,6 +101,8 @@ def pure_loading(key, scale, p0):
     if key in POOL:
         return float(i.model.loading(p0))
     p, n = point_data(key, scale)
+    if p0 < p[0]:
+        return float(n[0] * p0 / p[0])       # below the first point the curve is continued by Henry's law through the origin (as its spreading pressure is)
     return float(numpy.interp(p0, p, n))
 
 
